@@ -67,6 +67,7 @@ def _run_job(job):
     ex = make_executor(prog, extra, unwind=opts.get('unwind', 64))
     ex.unwind_limits.update(opts.get('unwind_limits', {}))
     ex.job = job
+    ex.fp_inputs = bool(opts.get('fp_inputs'))
     ex.linear_normalize = bool(opts.get('linear_normalize'))
     ex.pin_consts = bool(opts.get('pin_consts'))
     ex.fp_mode = bool(opts.get('fp_mode'))
@@ -124,19 +125,66 @@ def _run_job(job):
     }
 
 
+def _child(job, conn):
+    try:
+        r = run_job(job)
+    except BaseException as e:
+        r = {'job': job, 'error': '%s: %s' % (type(e).__name__, e), 'trace': traceback.format_exc()[-3000:], 'results': [], 'wall': 0.0}
+    try:
+        conn.send(r)
+    except BaseException as e:
+        conn.send({'job': job, 'error': 'result not transferable: %s' % e, 'results': [], 'wall': 0.0})
+    conn.close()
+    os._exit(0)
+
+
 def run_jobs(progpath, jobs, nproc=16):
-    """generator of job results (unordered); closing the generator terminates the workers"""
-    if nproc <= 1 or len(jobs) <= 1:
-        _init(progpath)
+    """generator of job results (unordered). One forked process per job (the parsed SSA is shared copy-on-write); a job
+    that exceeds its wall-clock budget is killed and reported as an error (inconclusive), never waited for."""
+    global _PROG
+    _init(progpath)
+    _prog()                      # parse once, before forking
+    import z3                    # noqa: imported before the fork so that children do not pay for it
+    if nproc <= 1:
         for j in jobs:
             yield run_job(j)
         return
+    from multiprocessing.connection import wait
     ctx = mp.get_context('fork')
-    pool = ctx.Pool(min(nproc, len(jobs)), initializer=_init, initargs=(progpath,), maxtasksperchild=8)
+    pending = list(jobs)
+    active = {}                  # conn -> (process, job, start)
     try:
-        for r in pool.imap_unordered(run_job, jobs, chunksize=1):
-            yield r
-        pool.close()
+        while pending or active:
+            while pending and len(active) < nproc:
+                j = pending.pop(0)
+                pr, pw = ctx.Pipe(duplex=False)
+                p = ctx.Process(target=_child, args=(j, pw))
+                p.start()
+                pw.close()
+                active[pr] = (p, j, time.time())
+            ready = wait(list(active), timeout=5)
+            now = time.time()
+            for c in ready:
+                p, j, t0 = active.pop(c)
+                try:
+                    r = c.recv()
+                except (EOFError, OSError):
+                    r = {'job': j, 'error': 'worker process died (killed or crashed)', 'results': [], 'wall': now - t0}
+                c.close()
+                p.join(1)
+                yield r
+            for c in list(active):
+                p, j, t0 = active[c]
+                budget = j.get('opts', {}).get('job_timeout_s', 1800)
+                if now - t0 > budget:
+                    p.kill()
+                    p.join(1)
+                    c.close()
+                    del active[c]
+                    yield {'job': j, 'error': 'job exceeded its wall-clock budget of %ds and was stopped' % budget, 'results': [], 'wall': now - t0}
     finally:
-        pool.terminate()
-        pool.join()
+        for c, (p, j, t0) in active.items():
+            try:
+                p.kill()
+            except Exception:
+                pass
